@@ -194,8 +194,11 @@ func withClient(r *harness.Rig, lmtp bool, fn func(c *smtp.Client, w *harness.Wi
 	done := make(chan struct{})
 	go func() {
 		defer func() {
-			// close first, then wake the waiter (defers run last-in first-out)
+			// the waiter evaluates "done" under the hub lock: change it under
+			// the lock too, or the wake-up can slip between its check and its wait
+			r.Hub.Lock()
 			close(done)
+			r.Hub.Unlock()
 			r.Hub.Broadcast()
 		}()
 		fn(cl, w)
